@@ -123,6 +123,8 @@ pub enum Actual {
 
 #[derive(Clone, Debug)]
 pub struct Violation {
+    /// which replay handler understands `case` ("e1" unless stated)
+    pub engine: String,
     pub unit: String,
     pub what: String,
     pub case: Value,
@@ -131,7 +133,7 @@ pub struct Violation {
 }
 impl Violation {
     pub fn to_json(&self) -> Value {
-        json!({"unit": self.unit, "what": self.what, "case": self.case, "expected": self.expected, "actual": self.actual})
+        json!({"engine": self.engine, "unit": self.unit, "what": self.what, "case": self.case, "expected": self.expected, "actual": self.actual})
     }
 }
 
@@ -287,6 +289,7 @@ impl Stats {
         if let Some(a) = v["violations"].as_array() {
             for e in a {
                 s.violations.push(Violation {
+                    engine: e["engine"].as_str().unwrap_or("e1").to_string(),
                     unit: e["unit"].as_str().unwrap_or("").to_string(),
                     what: e["what"].as_str().unwrap_or("").to_string(),
                     case: e["case"].clone(),
@@ -703,6 +706,7 @@ impl Ctx {
                 self.st.violations_total += 1;
                 if self.st.violations.len() < MAX_VIOLATIONS_KEPT {
                     let v = Violation {
+                        engine: "e1".into(),
                         unit: self.unit.clone(),
                         what: d.what.clone(),
                         case: c.to_json(),
@@ -749,6 +753,7 @@ impl Ctx {
                 self.st.violations_total += 1;
                 if self.st.violations.len() < MAX_VIOLATIONS_KEPT {
                     self.st.violations.push(Violation {
+                        engine: "e1".into(),
                         unit: self.unit.clone(),
                         what: format!("stray memory write: [{:06x}] is {:02x}, must stay {:02x}", a, got.unwrap_or(0), exp.unwrap_or(0)),
                         case: c.to_json(),
@@ -776,6 +781,7 @@ impl Ctx {
                         let got = self.m.peek(a).unwrap_or(0);
                         let exp = self.m.peek_shadow(a).unwrap_or(0);
                         self.st.violations.push(Violation {
+                            engine: "e1".into(),
                             unit: self.unit.clone(),
                             what: format!("stray memory write (not through Bus::write): [{:06x}] is {:02x}, must stay {:02x}", a, got, exp),
                             case: c.to_json(),
@@ -871,7 +877,7 @@ impl Ctx {
                 (Some(r), Some(a)) => self.actual_json(r, a),
                 _ => json!(null),
             };
-            self.st.violations.push(Violation { unit: self.unit.clone(), what, case, expected, actual });
+            self.st.violations.push(Violation { engine: "e1".into(), unit: self.unit.clone(), what, case, expected, actual });
         }
         if self.st.violations_total >= MAX_VIOLATIONS_PER_UNIT {
             self.stop = true;
@@ -1066,5 +1072,36 @@ impl Ctx {
         }
         self.m.restore();
         done
+    }
+}
+
+impl Ctx {
+    /// Violation found by an engine other than E1 (`engine` names the replay handler).
+    pub fn custom_violation(&mut self, engine: &str, what: String, case: Value, expected: Value, actual: Value) {
+        if self.frozen {
+            return;
+        }
+        self.st.violations_total += 1;
+        if self.st.violations.len() < MAX_VIOLATIONS_KEPT {
+            self.st.violations.push(Violation { engine: engine.to_string(), unit: self.unit.clone(), what, case, expected, actual });
+        }
+        if self.st.violations_total >= MAX_VIOLATIONS_PER_UNIT {
+            self.stop = true;
+        }
+    }
+    pub fn custom_known(&mut self, key: &str, what: String, case: Value) {
+        if self.frozen {
+            return;
+        }
+        let first = json!({"case": case, "what": what});
+        let e = self.st.known.entry(key.to_string()).or_insert((0, first));
+        e.0 += 1;
+    }
+    pub fn sample(&mut self, v: Value) {
+        if !self.frozen && self.st.samples.len() < self.want_samples {
+            let mut v = v;
+            v["unit"] = json!(self.unit);
+            self.st.samples.push(v);
+        }
     }
 }
